@@ -256,6 +256,9 @@ func init() {
 		if rc.Class != "" {
 			n = 40 // a known nondeterministic failure needs enough runs to show both outcomes
 		}
+		if strings.HasPrefix(rc.Note, "shape:") {
+			n, natural, perms = c10ShapeSizes()
+		}
 		c.rep.Hist("how", "replay")
 		runs := c.c10Runs(job, commonDirOf(rc.Order), n, natural, perms, helper)
 		c.c10Check("replay:"+rc.Note, raw, rc.Class, job, runs)
@@ -281,7 +284,7 @@ func runC10(c *checker) {
 		c.rep.Notes = append(c.rep.Notes, "in-process link-order runs skipped: "+summarize(err.Error(), 300))
 		helper = ""
 	}
-	nProg := pick(6, 30)
+	nProg := pick(10, 30)
 	if *programs > 0 {
 		nProg = *programs
 	}
@@ -305,7 +308,8 @@ func runC10(c *checker) {
 		c.c10Check(b.id(), c.c10Input(b.seed, job, "", ""), "", job, runs)
 		logf("%s: %d runs, %s", b.id(), len(runs), runs[0].outcome())
 	}
-	c.rep.Rule = fmt.Sprintf("random programs with many includes, types, constants of container/struct type, two services per file (every third with a file named like an imported std/runtime package) × option sets; each generated %d× by the thriftrw binary in fresh processes, %d× in-process with natural map order and %d× in-process under permuted link orders of includes/types/constants/services/functions (compile.CompileWithLinkOrder); observables: success/failure, sha256 of every generated file, the plugin request after canonical renumbering of ids; known findings D10/D21 are replayed from the corpus as probes; non-trivial = every program; distinct by (seed, options)", n, natural, perms)
+	c.runC10Shapes(helper)
+	c.rep.Rule = fmt.Sprintf("random programs with many includes, types, constants of container/struct type, two services per file (every third with a file named like an imported std/runtime package) × option sets; each generated %d× by the thriftrw binary in fresh processes, %d× in-process with natural map order and %d× in-process under permuted link orders of includes/types/constants/services/functions (compile.CompileWithLinkOrder); observables: success/failure, sha256 of every generated file, the plugin request after canonical renumbering of ids; plus shape programs (chains of constants of enum/typedef type within and across modules used in containers and defaults; service inheritance through 3–5 modules reached by sibling includes; files sharing a base name with same-named services) with many more natural-order runs each; known findings D10/D21 are replayed from the corpus as probes; non-trivial = every program; distinct by (seed, options)", n, natural, perms)
 }
 
 func init() { modes["C10"] = runC10 }
